@@ -135,5 +135,64 @@ theorem done_starts_head (t : Throttle) (hi : Inv t) (hl : 0 < t.limit) (cb : Na
   · omega
   · simp [hq]
 
+/-- Every governed request is eventually sent: once every request that was started has been
+    answered (as many `Done`s as started callbacks — in whatever order the answers came, the
+    throttle does not see which one an answer belongs to), nothing waits and nothing runs. -/
+theorem all_answered_all_started (limit : Int) (hl : 0 < limit) (ops : List TOp) (t' : Throttle)
+    (out : List Nat) (h : (Throttle.new limit).run ops = some (t', out))
+    (hall : nDone ops = out.length) :
+    t'.queue = [] ∧ t'.running = 0 ∧ out = addsOf ops := by
+  obtain ⟨i, hlim, f, c⟩ := run_spec (Throttle.new limit) ops t' out (inv_new limit hl) h
+  simp only [Throttle.new, List.nil_append] at f hlim
+  have c' : t'.running + (nDone ops : Int) = (out.length : Int) := by
+    simpa [Throttle.new] using c
+  have hc : (nDone ops : Int) = (out.length : Int) := by exact_mod_cast hall
+  have hr : t'.running = 0 := by omega
+  have hq : t'.queue = [] := by
+    cases hq : t'.queue with
+    | nil => rfl
+    | cons a b => have := i.2.2 (by simp [hq]); omega
+  exact ⟨hq, hr, by simpa [hq] using f⟩
+
+/-- `n` answers in a row. -/
+def dones (n : Nat) : List TOp := List.replicate n .done
+
+theorem drain_nil (l : Int) (n : Nat) :
+    (⟨l, (n : Int), []⟩ : Throttle).run (dones n) = some (⟨l, 0, []⟩, []) := by
+  induction n with
+  | zero => simp [dones, run]
+  | succ n ih =>
+    have hstep : (⟨l, ((n + 1 : Nat) : Int), []⟩ : Throttle).step .done = some (⟨l, (n : Int), []⟩, []) := by
+      have : ¬ ((n : Int) + 1 ≤ 0) := by omega
+      simp [step, this]
+    simp only [dones, List.replicate_succ, run, hstep]
+    simp only [dones] at ih
+    rw [ih]; simp
+
+/-- Drain: from any state the invariant allows, answering the outstanding requests one after the
+    other — `running + waiting` answers — starts every waiting callback, in order, and ends with
+    nothing running; none of these answers panics. -/
+theorem drain (t : Throttle) (hi : Inv t) (hl : 0 < t.limit) :
+    t.run (dones (t.running.toNat + t.queue.length))
+      = some ({ t with running := 0, queue := [] }, t.queue) := by
+  obtain ⟨l, r, q⟩ := t
+  induction q with
+  | nil =>
+    have h0 : 0 ≤ r := hi.1
+    obtain ⟨n, rfl⟩ : ∃ n : Nat, r = (n : Int) := ⟨r.toNat, by omega⟩
+    simp only [List.length_nil, Nat.add_zero, Int.toNat_natCast]
+    exact drain_nil l n
+  | cons cb q ih =>
+    have hfull := hi.2.2 (by simp)
+    simp only at hfull hl
+    have hpos : ¬ r ≤ 0 := by omega
+    have hstep : (⟨l, r, cb :: q⟩ : Throttle).step .done = some (⟨l, r, q⟩, [cb]) := by
+      simp [step, hpos]
+    have hi' : Inv ⟨l, r, q⟩ := ⟨hi.1, hi.2.1, fun _ => hfull⟩
+    have := ih hi' hl
+    simp only [List.length_cons, ← Nat.add_assoc, dones, List.replicate_succ, run, hstep]
+    simp only [dones] at this
+    rw [this]; simp
+
 end Throttle
 end Resgate
